@@ -154,5 +154,5 @@ def _blocking(series, extra):
         desc='a %s blocking queue through the real pipeline: one real producer thread logs on command, backend passes run only while it is blocked; every history of statements of several sizes (one filling the queue but for 3 bytes): each call returns after a bounded number of passes, everything delivered once and in order' % series,
         native=dict(cpp='blocking_history.cpp', file='include/quill/Logger.h', function='LoggerImpl::log_statement (blocking retry loop), BoundedSPSCQueue::{prepare_write,commit_read}, UnboundedSPSCQueue::_handle_full_queue', defs_quick=['LEN=5'] + extra, defs_thorough=['LEN=7'] + extra),
         bounded=dict(bound='every history of <= 5 (thorough: 7) statements over 4 (unbounded: 5) sizes; queue capacity 1 KiB (unbounded: up to 2 KiB); the OS schedules the producer thread', form='b'),
-        dropped=[], trusted=['one OS schedule per history for the producer thread; the bound of 50 passes per call is generous (a healthy run needs 1 or 2)'], min_obligations=1, timeout=1500)
+        dropped=[], trusted=['one OS schedule per history for the producer thread; a call counts as stuck after 20 s of continuous backend passes (a healthy one needs microseconds)'], min_obligations=1, timeout=1500)
 UNITS += [_blocking('bounded', []), _blocking('unbounded', ['SERIES_UNBOUNDED'])]
